@@ -114,7 +114,14 @@ class OptimizerWrapper:
         else:
             parent_container = self._infer_parent_container()
             self.network_names = self._infer_network_attr_names(parent_container)
-            self.lr_name = self._infer_lr_name(parent_container)
+            # NOTE: Several learning rates may be one and the same object (e.g. lr_actor and
+            # lr_critic read from one variable), in which case the name cannot be inferred
+            # from the value and must be passed explicitly.
+            self.lr_name = (
+                lr_name
+                if lr_name is not None
+                else self._infer_lr_name(parent_container)
+            )
 
         assert self.network_names, "No networks found in the parent container."
 
